@@ -255,7 +255,7 @@ SETUP_PROGS = [('e2_phrase', ['asan']), ('e2_gf', ['plain', 'asan']), ('e2_kdf',
                ('e1_bfs', ['asan']), ('e2_crypt', ['asan']), ('e2_tape', ['asan']), ('e2_fault', ['asan']), ('e2_detect', ['asan']), ('e2_strings', ['asan', 'dbg']), ('e4_residue', ['gcc-O2', 'gcc-O0']), ('e3_sched', ['tsanrt']), ('e3_free', ['tsan']), ('e2_pairs', ['plain'])]
 ENGINES = [
  {'name': 'E3', 'path': 'harness/e3_sched.c, harness/e3_scripts.h, harness/e3_free.c', 'serves_properties': ['C20'],
-  'kind_free_text': 'stateless model checking of thread interleavings: the library is compiled with -fsanitize=thread and linked against the harness own __tsan_* callbacks; real pthreads under a baton scheduler, scheduling point at every access to the library writable static data, DFS over choice prefixes with a visited-state cache (complete, no preemption bound needed on the unchanged tree), race and serial-equivalence oracles; plus a separate free-running real-TSan pass'},
+  'kind_free_text': 'stateless model checking of thread interleavings: the library is compiled with -fsanitize=thread and linked against the harness own __tsan_* callbacks; real pthreads under a baton scheduler, scheduling point at every access to the library writable static data, DFS over choice prefixes with a visited-state cache (complete, no preemption bound needed on the unchanged tree), C11 atomic operations of the library are scheduling points and happens-before edges (vector-clock race oracle), spinning threads yield and an all-spinning state is a violation, a harness too large at access granularity is completed at synchronisation granularity; race, serial-equivalence and progress oracles; plus a separate free-running real-TSan pass'},
  {'name': 'E4', 'path': 'harness/e4_residue.c', 'serves_properties': ['C16'],
   'kind_free_text': 'exhaustive enumeration of (API function, exit path) cells x compiler/optimisation builds on a dedicated painted stack, followed by a full scan of the dead stack and the library static data for secret needles; zero-at-free and memzero-before-free at every release'},
  {'name': 'E5', 'path': 'lib/checks.py:c19 + harness/e2_*.c, e1_bfs.c', 'serves_properties': ['C19'],
@@ -269,13 +269,13 @@ NA = {}
 TB = 'gcc 12 + ASan/UBSan, binutils, libutf8proc, reference model harness/ref.c, golden word lists (sha256-pinned)'
 META = {
  'C01': dict(engine='E2', design_ref='DESIGN.md section 5 C01', technique='exhaustive enumeration of seed factors x languages x coins x masks on the real encode/decode (explicit-state, no sampling)',
-   text='Complete enumeration of every (language, word position, 11-bit index) in several background seeds, all 1- and 2-bit seeds, all 2048 coins, all birthdays x supported features x enabled masks; each case is encoded and decoded (explicit and automatic) on the real library and the decoded seed must be observationally identical (store bytes, getters, KDF arguments). 2^150 secrets are covered by factoring, stated in DESIGN.md section 7.',
+   text='Complete enumeration of every (language, word position, 11-bit index) in several background seeds, all 1- and 2-bit seeds, all 2048 coins, all birthdays x supported features x enabled masks, exact extremal phrases (longest word in all 16 positions) of every language; each case is encoded and decoded (explicit and automatic) on the real library and the decoded seed must be observationally identical (store bytes, getters, KDF arguments). 2^150 secrets are covered by factoring, stated in DESIGN.md section 7.',
    note='Trusted: ' + TB + '. Escapes: effects needing >=3 specific bits in different words outside all backgrounds.'),
  'C03': dict(engine='E2', design_ref='DESIGN.md section 5 C03', technique='exhaustive enumeration of seed factors, byte comparison of every emitted phrase with an independent reference encoder',
    text='Same enumeration as C01 with a different oracle: every phrase emitted by polyseed_encode must be byte-identical to the phrase computed by the reference model (README bit layout, golden word lists, coin XOR, separator, NFC), the stored check value must equal the reference GF(2048) value, and re-encoding after unrelated operations must give the same bytes. A bit-linear packing is pinned by the single-bit seeds and their pairs, which are enumerated completely.',
    note='Trusted: ' + TB + '.'),
- 'C20': dict(engine='E3', design_ref='DESIGN.md section 5 C20', technique='stateless exploration of all thread interleavings under a controlled scheduler (custom __tsan_* runtime, state caching), race + serial-equivalence oracles',
-   text='All interleavings of four (thorough: five) multi-threaded harnesses (create/encode/decode/free; load/crypt/keygen/encode/decode_explicit/free; 3 threads with colliding language and coin; Chinese auto-detection + non-ASCII crypt against Korean create/encode/decode; thorough: 3 threads x full create/encode/decode/free cycles, 114 305 states) at the granularity of single accesses to the library writable static data are executed on the real library (2 555 + 4 164 + 30 688 + 3 114 states on the unchanged tree, each complete without a preemption bound). Every execution is checked for a write/any-access pair by different threads on a shared byte, for accesses to another thread seed memory, and for per-thread transcripts equal to a serial run. A free-running pass of the same bodies under real ThreadSanitizer keeps uninstrumented libc helpers visible.',
+ 'C20': dict(engine='E3', design_ref='DESIGN.md section 5 C20', technique='stateless exploration of all thread interleavings under a controlled scheduler (custom __tsan_* runtime incl. atomics, state caching), happens-before race + serial-equivalence + progress oracles',
+   text='All interleavings of seven (thorough: eight) multi-threaded harnesses (refused-feature inputs next to valid ones; a pool allocator that recycles released blocks across threads; libc allocator; create/encode/decode/free; load/crypt/keygen/encode/decode_explicit/free; 3 threads with colliding language and coin; Chinese auto-detection + non-ASCII crypt against Korean create/encode/decode; thorough: 3 threads x full create/encode/decode/free cycles, 114 305 states) at the granularity of single accesses to the library writable static data are executed on the real library (2 555 + 4 164 + 30 688 + 3 114 states on the unchanged tree, each complete without a preemption bound). Every execution is checked for a write/any-access pair by different threads on a shared byte, for accesses to another thread seed memory, and for per-thread transcripts equal to a serial run. A free-running pass of the same bodies under real ThreadSanitizer keeps uninstrumented libc helpers visible.',
    note='Trusted: ' + TB + ', gcc -fsanitize=thread instrumentation, pthreads/semaphores. Sequential consistency; 2-3 threads; a state cap switches to iterative preemption bounding and is reported.'),
  'C16': dict(engine='E4', design_ref='DESIGN.md section 5 C16', technique='enumeration of every API function x exit path x compiler build on a painted stack with full residue scan; wipe-before-free checked on every free of the E1 state space',
    text='Each of 63 (function, exit) cells - create OK/unsupported/memory, load OK/memory/5 format causes/checksum/unsupported, both decoders x OK/word count/language/checksum/memory/unsupported x 3 languages, multiple languages, encode in composing and plain languages, crypt with ASCII and non-ASCII password, keygen, store, getters, free - is executed on a dedicated 256 KiB stack painted 0xA5; afterwards the complete dead stack and the library writable sections are searched for the secret bytes, the encrypted secret, the mask, the password (raw, NFKD), every phrase word and adjacent word-index pairs (u16/u32/u64). At every free the block must be zero and covered by an earlier injected memzero. Repeated for each compiler build.',
@@ -287,28 +287,28 @@ META = {
    text='Every single deviation and pairs of deviations (token replaced by a representative of each of the 68 cross-language recognition classes, unknown, empty; separator doubled, ideographic, no-break; leading/trailing spaces, 17th token, 15 tokens) from 28 base phrases (each language valid/bad check word, phrases recognised by 6 / 2 lists) x coins x masks x failing allocation. For each string: auto = OK implies exactly one language recognises all tokens and equals its explicit result; MULT_LANG iff >= 2; LANG iff none; NUM_WORDS first; plus equality with the reference decoder and coverage of all 22 feasible rows of the simultaneous-error table.',
    note='Trusted: ' + TB + '. Deviation bound 2 (thorough: all 120 position pairs).'),
  'C14': dict(engine='E2', design_ref='DESIGN.md section 5 C14', technique='small-scope exhaustive enumeration of byte strings under ASan/UBSan with status, input-immutability, ledger and termination oracles',
-   text='All strings up to length 5 (6) over 9 byte classes (ASCII, space, lead/continuation bytes of 2- and 3-byte UTF-8, invalid FF), alone and appended to valid 14/15/16-token phrases in each language, plus every length around the buffer size, sliding non-ASCII offsets, a 17th token across the cut, token-count x token-length grids; fed to decode, decode_explicit (4 languages) and crypt in sanitizer builds with and without assertions; buffers for load come from the C06 enumeration.',
+   text='All strings up to length 5 (6) over 9 byte classes (ASCII, space, lead/continuation bytes of 2- and 3-byte UTF-8, invalid FF), alone and appended to valid 14/15/16-token phrases in each language, plus every length around the buffer size, sliding non-ASCII offsets, a 17th token across the cut, token-count x token-length grids, and well-formed phrases carrying each of the 32 feature values x 10 languages x enabled masks 7/0/2 (refused seeds are failed calls too); fed to decode, decode_explicit (4 languages) and crypt in sanitizer builds with and without assertions; buffers for load come from the C06 enumeration.',
    note='Trusted: ' + TB + '. Other byte values only by class; lengths beyond 2*size+80 not tried.'),
  'C10': dict(engine='E1', design_ref='DESIGN.md section 5 C10', technique='explicit-state BFS over enable/create/reload/recode/crypt/free histories to fixpoint, all 32 feature values x 4 entry points in every state',
    text='Breadth-first search of the real library over sequences of enable_features (14 arguments incl. high bits), create (13 arguments), store/load, encode/decode, crypt and free until no new state appears; in every state all 32 five-bit feature values are presented to load, decode_explicit, decode and create and must be refused exactly when they contain a bit outside (mask | encrypted); enable returns popcount(arg & 7); feature queries return exactly the stored user bits.',
    note='Trusted: ' + TB + '. Sequences are exhaustive for the stated alphabet (fixpoint), seeds/languages/coins inside the battery are fixed representatives.'),
  'C12': dict(engine='E1+E2', design_ref='DESIGN.md section 5 C12', technique='explicit-state BFS over password-operation histories to fixpoint + exhaustive per-byte enumeration of KDF masks',
-   text='E1: one or two seeds, 7 passwords (empty, ASCII, composed/decomposed/compatibility-equivalent non-ASCII, 400 characters), crypt/reload/recode/free to fixpoint with every state compared with the model (XOR, truncate, toggle, re-checksum) and every KDF call compared byte for byte (NFKD password without terminator, salt, 10000, 32). E2: the stub returns every value of every mask byte, all 256 x 64 combinations at the truncation corner; result must equal the model, be loadable/encodable, and a second application must restore the original.',
+   text='E1: one or two seeds, 7 passwords (empty, ASCII, composed/decomposed/compatibility-equivalent non-ASCII, 400 characters), crypt/reload/recode/free to fixpoint with every state compared with the model (XOR, truncate, toggle, re-checksum) and every KDF call compared byte for byte (NFKD password without terminator, salt, 10000, 32). E2: the stub returns every value of every mask byte, all 256 x 64 combinations at the truncation corner; result must equal the model, be loadable/encodable, and a second application must restore the original. Passwords: a non-ASCII character at every offset of 2-65 byte passwords in both spellings, every one- and two-byte ASCII password (control characters included) reaches the KDF unchanged, normal forms of 531-546 bytes (at, below and above the phrase-buffer capacity) in both spellings, crypt under a refusing allocator.',
    note='Trusted: ' + TB + '. 2^256 masks are covered byte-wise (XOR acts byte-wise, the only cross-byte effect is the check value, which is compared for every case).'),
  'C13': dict(engine='E1', design_ref='DESIGN.md section 5 C13', technique='explicit-state BFS over API histories of the real library to fixpoint, reference model compared on every transition and in every state',
-   text='All reachable states of the 2-slot (thorough: 3-slot) API machine over a closed alphabet of 34 operations (2 slots) are visited - create (incl. high argument bits and a clock after 2107), free, free(NULL), crypt, store/load, encode/decode (3 variants), enable_features, re-injection of two dependency tables, an armed allocation fault, and seven calls that must fail and change nothing (bad images, garbage, wrong coin, phrases that two lists recognise) - 7 788 states on the unchanged tree, keyed on (implementation state, model state) pairs; each transition status/output equals the abstract model, and in every new state every live seed is observed (store, getters, KDF inputs for 2 coins, phrases in all 10 languages, reload, decode in 3 languages) and must equal the model seed, with queries leaving the state key unchanged. Hidden state is part of the key, so it cannot be merged away.',
+   text='All reachable states of the 2-slot (thorough: 3-slot) API machine over a closed alphabet of 37 operations (2 slots) are visited - create (incl. high argument bits, a clock in the first month after 2107 and one more than 2^32 s after the epoch), free, free(NULL), crypt, store/load, encode/decode (3 variants), enable_features, re-injection of two dependency tables, an armed allocation fault, and seven calls that must fail and change nothing (bad images, garbage, wrong coin, phrases that two lists recognise) - 10 188 states on the unchanged tree, keyed on (implementation state, model state) pairs; each transition status/output equals the abstract model, and in every new state every live seed is observed (store, getters, KDF inputs for 2 coins, phrases in all 10 languages, reload, decode in 3 languages) and must equal the model seed, with queries leaving the state key unchanged. Hidden state is part of the key, so it cannot be merged away.',
    note='Trusted: ' + TB + '. Bounded by the alphabet (argument domains) and the number of slots, not by depth.'),
  'C15': dict(engine='E1+E2', category='fault_enumeration', design_ref='DESIGN.md section 5 C15', technique='allocation-fault arming as a state component of the explicit-state search + entry point x outcome class x failing-request enumeration',
    text='In the E1 search an allocation fault can be armed in every state; every transition is therefore executed fault-free and with its allocation request failing, and exploration continues after the failure. After every call the ledger must equal the number of live seeds, no unknown/repeated/NULL pointer may reach free, free(NULL) makes no dependency call, a fired fault yields the memory status. e2_fault crosses each entry point and outcome class (OK, word count, language, multiple languages, checksum, 6 format causes, unsupported) with every allocation request of the call made to fail in turn (the number of requests is learnt from a fault-free run) and with injected and libc allocators; and every constructor is run under four fill patterns of fresh memory (00, DD, FF, 5A) and must hand out observationally identical seeds.',
    note='Trusted: ' + TB + '. Blocks are junk-filled, so reliance on zeroed memory shows as a model mismatch.'),
  'C18': dict(engine='E1+E2', design_ref='DESIGN.md section 5 C18', technique='explicit-state BFS over injection sequences (16 tables) to fixpoint with call-log oracle, single-bit random tapes, link audit of undefined symbols',
-   text='E1 profile inject: all sequences of polyseed_inject over 2 tables x 8 NULL patterns (caller struct poisoned right after the call), create, free, free(NULL), armed fault, to fixpoint; after every transition (also in the api profile: decoders, load, crypt, failing calls) time, allocation and release must have gone through exactly the table in force - injected function or libc when the entry is NULL (counting wrappers) - random bytes requested once, 19 bytes, written inside the new block. E2 tapes: 152 single-bit and 152 single-zero-bit tapes, byte-18 values, bytes beyond 19, extreme clocks. Link audit: no undefined symbol beyond the permitted libc helpers.',
+   text='E1 profile inject: all sequences of polyseed_inject over 2 tables x 8 NULL patterns (caller struct poisoned right after the call), create, free, free(NULL), armed fault, to fixpoint; after every transition (also in the api profile: decoders, load, crypt, failing calls) time, allocation and release must have gone through exactly the table in force - injected function or libc when the entry is NULL (counting wrappers) - random bytes requested once, 19 bytes, written inside the new block. No function of a table that is no longer injected may be called (table B has its own allocate / release / wipe / KDF / random / clock entry points). E2 tapes: 152 single-bit and 152 single-zero-bit tapes, byte-18 values, bytes beyond 19, extreme clocks. Link audit: no undefined symbol beyond the permitted libc helpers.',
    note='Trusted: ' + TB + ', nm.'),
  'C02': dict(engine='E2', design_ref='DESIGN.md section 5 C02', technique='complete enumeration of GF(2^11) one-word polynomials x check values through load, distance conditions on the library table, phrases x 16 x 2047 substitutions and 120 swaps',
    text='All 15 x 2048 x 2048 (position, value, check value) triples go through polyseed_load and exactly the reference product may be accepted; additivity is checked through the create path on all pairs of basis bits (thorough: all pairs of one-word polynomials at 16 position pairs); from the library table every single-word difference must contribute non-zero and no two positions may contribute equally (transposition); base phrases with every word substituted and every pair swapped are decoded by both decoders.',
    note='Trusted: ' + TB + '. The 2^165 x positions space is reduced by GF(2)-linearity, itself checked exhaustively on the field.'),
  'C04': dict(engine='E2', design_ref='DESIGN.md section 5 C04', technique='exhaustive enumeration of coins x birthdays x feature values with a logging KDF stub and page-protected key buffer',
-   text='All 2048 coins x 1024 birthdays x 16 loadable feature values (x secrets) call polyseed_keygen; every argument of the single KDF call is compared with the reference byte strings, mapped back by a constructive inverse, and the key page is made inaccessible when the stub returns so any later access by the library faults. The same abstract seed reached by load, create (also with argument bits above the three feature bits), decode in 10 languages, crypt twice, and encrypt -> phrase -> decode -> decrypt must give identical inputs (E1 repeats this in every reachable state).',
+   text='All 2048 coins x 1024 birthdays x 16 loadable feature values (x secrets) call polyseed_keygen; every argument of the single KDF call is compared with the reference byte strings, mapped back by a constructive inverse, and the key page is made inaccessible when the stub returns so any later access by the library faults. The same abstract seed reached by load, create (also with argument bits above the three feature bits), decode in 10 languages, crypt twice, and encrypt -> phrase -> decode -> decrypt must give identical inputs (E1 repeats this in every reachable state); the creation path also under clocks in the first month after the 1024-month range, one and two whole ranges later (> 2^32 s) and several ranges later.',
    note='Trusted: ' + TB + ', mprotect/SIGSEGV.'),
  'C05': dict(engine='E2', design_ref='DESIGN.md section 5 C05', technique='exhaustive enumeration of ordered coin pairs on the real encode/decode',
    text='English: all 2048 x 2048 ordered (A,B) pairs per seed; other languages all B for 32 A (quick) or all A (thorough, sorted lists). B != A must give the checksum status, B = A the same seed, and that restored seed must encode again to the very same phrases for coin A and coin 0 (no coin residue inside the seed); the phrases for A and coin 0 must differ in exactly the second word, whose index is c1 xor A.',
@@ -323,9 +323,9 @@ META = {
    text='For every word of every language: every prefix length, every subset of accents kept or dropped, NFD and NFC spelling, wrong continuations, spurious accents, upper case; each variant replaces a word of a checksum-valid phrase and must decode to the same seed iff the rule permits it; statuses also equal the reference decoder. Mixed phrases carry permitted variants in all 16 positions.',
    note='Trusted: ' + TB + '. Accent folding = removal of non-ASCII bytes after NFKD.'),
  'C11': dict(engine='E2', design_ref='DESIGN.md section 5 C11', technique='exhaustive enumeration of clock values (thorough: every second of the 1024-month range) through create with an injected clock',
-   text='quick: all 1024 month boundaries on both sides, first/middle/last second, 0, epoch, 2^31/2^32/2^63/2^64 neighbours, powers of two; thorough: every one of the 2.7e9 seconds from one month before the epoch to one month after the range. The property inequalities are asserted directly and against 128-bit reference arithmetic; all 1024 month indices survive store/load, 10 languages and crypt.',
+   text='quick: all 1024 month boundaries on both sides, first/middle/last second, 0, epoch, 2^31/2^32/2^63/2^64 neighbours, powers of two; thorough: every one of the 2.7e9 seconds from one month before the epoch to one month after the range. The property inequalities are asserted directly and against 128-bit reference arithmetic; all 1024 month indices survive store/load, 10 languages and crypt; a clock whose readings change inside one call; the default clock (time entry NULL) under 7 time-zone settings of the process x 12 readings around each of 1031 month boundaries.',
    note='Trusted: ' + TB + '.'),
  'C17': dict(engine='E2', design_ref='DESIGN.md section 5 C17', technique='exact worst-case computation by exhaustive per-position maxima over the words the library emits + extremal witnesses under ASan',
-   text='Per language x enabled mask x form (output, encode temporary, NFKD) the maximum phrase length is computed exactly from the words the library itself emits and must be below sizeof(polyseed_str); witnesses attaining the per-position maxima are encoded with a canary behind the buffer and decoded back.',
+   text='Per language x enabled mask x form (output, encode temporary, NFKD) the maximum phrase length is computed exactly from the words the library itself emits and must be below sizeof(polyseed_str); witnesses attaining the per-position maxima (and exact extremal ones whose check word is maximal too) are encoded with a canary behind the buffer and decoded back; 400 (thorough 6000) seeds x 10 languages x 7 coins: the returned length equals strlen of the output for every coin and each produced phrase is accepted again by both decoders.',
    note='Trusted: ' + TB + '.'),
 }
